@@ -175,9 +175,9 @@ def set_xrange(self, *args):
 """,
     ("use_mode_with_confidence", None): """
 def use_mode_with_confidence(self, confidence=None):
-    self.__settings[lit.MONTE_CARLO_STRATEGY] = lit.MC_MODE_AND_CONFIDENCE
     if confidence:
         self.confidence = confidence
+    self.__settings[lit.MONTE_CARLO_STRATEGY] = lit.MC_MODE_AND_CONFIDENCE
 """,
     ("use_mean_and_std", None): """
 def use_mean_and_std(self):
@@ -185,13 +185,13 @@ def use_mean_and_std(self):
 """,
     ("use_custom_value_and_error", None): """
 def use_custom_value_and_error(self, value, error):
-    self.__settings[lit.MONTE_CARLO_STRATEGY] = lit.MC_CUSTOM
     if not isinstance(value, Real):
         raise TypeError('')
     if not isinstance(error, Real):
         raise TypeError('')
     if CUT_TEST:
         raise ValueError('')
+    self.__settings[lit.MONTE_CARLO_STRATEGY] = lit.MC_CUSTOM
     self.__evaluator.values[self.strategy] = dt.ValueWithError(value, error)
 """,
     ("strategy", "getter"): """
